@@ -24,8 +24,6 @@ pub fn mixh(seed: u64, i: u64) -> u64 {
     x ^ (x >> 32)
 }
 
-pub const LL_CLASSES: [&str; 4] = ["ll-derived", "ll-16bit-form", "ll-random-iid", "ll-near-derived"];
-pub const G_CLASSES: [&str; 3] = ["g-derived", "g-16bit-form", "g-random-iid"];
 
 /// Hardware address: kind 0 = extended, 1 = short.
 pub fn make_hw(kind: u64, seed: u64, pan: Option<u16>) -> (Hw, Ll) {
@@ -469,7 +467,12 @@ impl DgramApp {
                     }
                 }
             };
-            let exp = s.expected_bytes(&src);
+            let mut exp = s.expected_bytes(&src);
+            if s.proto == PROTO_UDP && exp.len() == bytes.len() && exp[46..48] == [0xff, 0xff] && bytes[46..48] == [0, 0] {
+                // reported on its own (checksum 0 instead of 0xffff); not a second difference
+                exp[46] = 0;
+                exp[47] = 0;
+            }
             if exp == bytes {
                 self.sent[k].tx = Some(id);
                 let dg = &mut w.s[side].an.dgrams[id];
@@ -1006,7 +1009,8 @@ pub fn dgram_case(src: &mut Src, ctx: &mut Ctx) -> Result<(), Fail> {
     for _ in 0..nb {
         let hops = [draw_hop(src), draw_hop(src), draw_hop(src)];
         let mut b = vec![];
-        let n = 1 + src.weighted(&[5, 3, 2]);
+        // mostly 1-3 datagrams back to back; occasionally more, to exhaust the reassembly slots
+        let n = 1 + src.weighted(&[10, 6, 4, 1, 1, 1]);
         for _ in 0..n {
             let proto = if src.chance(1, 4) { PROTO_ICMPV6 } else { PROTO_UDP };
             let sock = src.draw(1) as usize;
@@ -1199,7 +1203,7 @@ pub fn perm_phase(env: &RunEnv) -> PhaseResult {
                 for srcpin in 0..3u64 {
                     k += 1;
                     // quick: a slice of the product chosen by a fixed stride; thorough: all of it
-                    if !thorough && (k + env.seed) % 9 != 0 {
+                    if !thorough && (k + env.seed) % 3 != 0 {
                         continue;
                     }
                     let hwa = (k / 2) % 5 / 4; // mostly extended
